@@ -215,6 +215,7 @@ class RtRunner(HistoryRunner):
             self.senders.append(pa)
             self.src_pool = self.src_pool + [pa, (pa[0], None)]
             self.ports = self.ports + [rt.peer.itf.port]
+        self.ports_usable = False      # one transport end point per round
         self.round_no = 0
         self.round_info = None
         self.clock_step = False
@@ -305,6 +306,7 @@ class RtRunner(HistoryRunner):
         ops, msgs = [], []
         enabled_in_round = set()
         rt.log.clear(); rig.errs.clear(); rig.raw.clear(); rig.inv.clear()
+        rig.pred.clear()
         sender, port = rt.endpoint(transport)
         if probes is not None:
             plan = [('probe', p) for p in probes]
@@ -335,6 +337,7 @@ class RtRunner(HistoryRunner):
                                    raised_in='operation ' + op[0], exc=exc_name(e),
                                    site=where, tb=short_tb(e))
                 b = next(rt.stamp)
+                self.check_failed_residue()     # a creation that had to fail
                 if done:
                     self._model_op(op)
                     acc.count('rt_ops/' + op[0])
@@ -394,6 +397,9 @@ class RtRunner(HistoryRunner):
         acc.count('rt_rounds')
         acc.count('rt_rounds/' + transport)
         self.feat['rounds'] += 1
+        # what the template predicates were evaluated with (before the error
+        # log: a predicate given a foreign value may have raised)
+        self.check_predicate_calls(list(rig.pred), [x['args'] for x in msgs])
         self._logged_errors()
         if sent is None:
             alive = rt.peer.alive() if transport == 'tcp' else rig.itf._udp_thread.is_alive()
@@ -622,8 +628,9 @@ class RtRunner(HistoryRunner):
             for _ in range(rng.randint(1, 4)):
                 op = ('create', self._new_spec())
                 self.log.append(['op', _j(op)])
-                self._real_op(op)
-                self._model_op(op)
+                if self._real_op(op):
+                    self._model_op(op)
+                self.check_failed_residue()
             for _ in range(rng.randint(3, 10)):
                 tr = rng.choice(transports)
                 if tr == 'tcp' and not (self.rt.peer.ok and self.rt.peer.alive()):
@@ -659,6 +666,8 @@ class RtRunner(HistoryRunner):
         except Stop:
             self.rt.reset_after_violation(self)
             return False
+        finally:
+            self.cleanup_ports()
 
 
 def run(spec, acc):
